@@ -1463,6 +1463,38 @@ func ruleVersionListParse(c *Ctx) {
 		walk(failing)
 		return true
 	})
+	// and the failing element itself is not taken: on the error edge no append
+	// is reached before the next conversion
+	{
+		g := p.Graph(f)
+		atoiN := g.NodeOf(atoi)
+		taken := false
+		if atoiN != nil {
+			for _, m := range g.Nodes {
+				for _, e := range m.Succs {
+					at, isAt := edgeAtom(info, e)
+					if !isAt || at.Kind != "nil" || at.Op != token.NEQ || identObj(info, at.X) != errv {
+						continue
+					}
+					for x := range g.Reach([]*Node{e.To}, func(y *Node) bool { return y == atoiN }, nil) {
+						if x.Ast == nil || x.Ast.Pos() < loop.Body.Pos() || x.Ast.End() > loop.Body.End() {
+							continue
+						}
+						for _, call := range callsIn(x.Ast) {
+							if p.CalleeName(f, call) == "builtin.append" {
+								taken = true
+							}
+						}
+					}
+				}
+			}
+		}
+		if taken {
+			c.R.Violate("R-NEG", p.Pos(atoi), f.Name, "invalid list element not taken", "after the conversion of a list element failed the element is still appended (as the zero value): an unparsable entry makes the plugin believe the host offers version 0", nil)
+		} else {
+			c.R.Hold("R-NEG", p.Pos(atoi), f.Name, "invalid list element not taken", "no append is reachable from the error edge of the conversion within the iteration", true)
+		}
+	}
 	if leaves != "" {
 		c.R.Violate("R-NEG", p.Pos(atoi), f.Name, "invalid list element skipped", "on an element that does not parse the plugin "+leaves+" instead of going on with the next element: the versions after it are never considered, so the highest common version can be missed", nil)
 	} else {
